@@ -500,6 +500,16 @@ func (m *Model) Judge(o *Op, rec *nat.CallRecord, before, obs *Obs, height uint3
 	actual := obs.Lines()
 	fam := Family(o.Kind)
 
+	if o.Kind == KApproveRegisterSC {
+		// workload shape: an approval of a pending registration while the id is registered
+		if rs := m.Lookup(KApproveRegisterSC, fmt.Sprint(o.ID)); rs != nil && rs.Pending == 1 && rs.P != nil && rs.P.Chain != nil {
+			if cur := m.Chains[o.ID]; cur != nil && cur.Owner == rs.P.Chain.Owner {
+				m.Count("register_approvals_while_id_registered_to_the_applicant", 1)
+			} else if cur != nil {
+				m.Count("register_approvals_while_id_registered_to_another_owner", 1)
+			}
+		}
+	}
 	if !rec.Ok {
 		if rec.Panic != nil {
 			m.Count("calls_panicked", 1)
